@@ -55,9 +55,12 @@ def make_options(opt, extra):
     klass = bool(opt & 4)           # base vertex type 'class' instead of 'object'
     base_only_arrows = bool(opt & 8)
     urf = bool(opt & 16)
+    class_attr = bool(opt & 128) and custom_sub and not idtitles    # SubVertex titles use the CLASS-level constant `kind`
+    peers = bool(opt & 256)                                           # the declarations also show `peer` (a neighbouring vertex object)
+    px = ["^peer$"] if peers else []
     o = {
         "skinparams": {"dpi": "300"} if opt & 32 else {},
-        Vertex: {"type": "class" if klass else "object", "show_attrs": (["^i$"] if not idtitles else ["^i$", "^zz"]) if not id_attr else ["^id$", "^i$"],
+        Vertex: {"type": "class" if klass else "object", "show_attrs": ((["^i$"] if not idtitles else ["^i$", "^zz"]) if not id_attr else ["^id$", "^i$"]) + px,
                  "title_format": "$id" if idtitles else ("n{id}" if id_attr else "v{i}")},
         DirectedEdge: dict(zip(("v1side", "v2side"), ARROWS[extra % 8] if base_only_arrows else ("", ">"))),
         UnDirectedEdge: {"v1side": "", "v2side": ""},
@@ -65,11 +68,11 @@ def make_options(opt, extra):
     }
     if custom_sub:
         o[C.SubDirected] = dict(zip(("v1side", "v2side"), ARROWS[(extra + 3) % 8]))
-        o[C.SubVertex] = {"type": "class", "show_attrs": ["^i$"], "title_format": "$id" if idtitles else "s{i}"}
+        o[C.SubVertex] = {"type": "class", "show_attrs": ["^i$"] + (["^kind$"] if class_attr else []) + px, "title_format": "$id" if idtitles else ("s{i}{kind}" if class_attr else "s{i}")}
         o[C.SubOdd] = {"v1side": "+", "v2side": "+"}
         # a DIFFERENT class with the same __name__ ("SubVertex"), configured differently
         o[C.SubVertexTwin] = {"type": "object", "show_attrs": ["^i$"], "title_format": "$id" if idtitles else "w{i}"}
-    return o, dict(idtitles=idtitles, custom_sub=custom_sub, urf=urf, id_attr=id_attr)
+    return o, dict(idtitles=idtitles, custom_sub=custom_sub, urf=urf, id_attr=id_attr, class_attr=class_attr, peers=peers)
 
 
 def nearest(cls, options):
@@ -128,6 +131,9 @@ def _check_render(case, vs, ls, u, opt, keep):
     if flags.get("id_attr"):
         for v in vs:
             v.id = "x%d" % v.i      # user data that happens to be called `id`
+    if flags.get("peers"):
+        for k, v in enumerate(vs):
+            v.peer = vs[(k + 1) % len(vs)]      # user data referring to other vertices (a ring: mutual for two vertices)
     if "options" in keep:
         options = keep["options"]          # the caller reuses its table object
     else:
@@ -142,7 +148,7 @@ def _check_render(case, vs, ls, u, opt, keep):
         src = plantuml.render_to_plantuml_src(u, options)
     except Exception as e:  # noqa
         raise Violation("render-raised", repr(e))
-    members = u.vertices
+    members = render.distinct(u.vertices)
     if not members:
         require(src is None, "empty-universe-not-None", repr(src)[:100])
         return dict(nt=False, classes=["empty-universe"])
@@ -158,7 +164,7 @@ def _check_render(case, vs, ls, u, opt, keep):
         c, o = nearest(type(v), ref_options)
         if o["title_format"] == "$id":
             return hex(id(v))
-        return o["title_format"].format(i=v.i, id=getattr(v, "id", None))
+        return o["title_format"].format(i=v.i, id=getattr(v, "id", None), kind=getattr(v, "kind", None))
 
     def vtype(v):
         return nearest(type(v), ref_options)[1]["type"]
@@ -213,6 +219,10 @@ def _check_render(case, vs, ls, u, opt, keep):
         classes.append("subclass-entries")
     if flags["urf"]:
         classes.append("user_render_func")
+    if flags["class_attr"]:
+        classes.append("title-from-class-level-attribute")
+    if flags["peers"]:
+        classes.append("attributes-referring-to-vertices-shown")
     if mro_used:
         classes.append("mro-resolution")
     if any(l.v1 is l.v2 for l in int_links):
